@@ -314,7 +314,9 @@ impl C13 {
                 // inside the routine is a pause, not the halt)
                 let _ = halt_lo;
                 let wrote_mcr = acc_b.get(&0xFFFE).is_some_and(|f| f & 2 != 0);
-                if sb == Stop::Halt || (sb == Stop::McrOff && scn.flags.real_traps && wrote_mcr) {
+                // (whatever ended the call: a breakpoint or limit that matches right after the routine's
+                // store to MCR ends the call first, but the program has halted all the same)
+                if sb == Stop::Halt || (scn.flags.real_traps && wrote_mcr) {
                     program_halted = true;
                     break;
                 }
